@@ -1028,8 +1028,10 @@ def check_vector_kernels(ctx, apus, n_cases: int):
     from harness.common import close, f2u, pykern, u2f
 
     g, errors = pykern.translate_all()
+    MODES = ['IDLE', 'APPROACH', 'CLIMB', 'TAKEOFF']
+    lto_names = [f'lto_{w}_{m}' for m in MODES for w in ('emission', 'index', 'fuel')] + ['lto_fuel_burn']
     names = ['segment_fuel_burn', 'lifecycle_co2', 'species_total', 'traj_emissions', 'traj_indices', 'traj_fuel_burn',
-             'traj_window_lo', 'traj_window_hi']
+             'traj_window_lo', 'traj_window_hi'] + lto_names
     specs = {k.name: k for k in pykern.SYM_KERNELS if k.name in names}
     sm = ctx.extra.setdefault('kernels', {}).setdefault('vector', {'kernels': 0, 'points': 0, 'elements': 0, 'mismatches': 0,
                                                                    'untranslatable': {}})
@@ -1050,9 +1052,13 @@ def check_vector_kernels(ctx, apus, n_cases: int):
             return
         pt = {'x': [f2u(float(t)) for t in x], 'b': [bool(t) for t in b],
               'v': [[f2u(float(t)) for t in np.asarray(a, dtype=float).ravel()] for a in v], 'n': [int(t) for t in nn]}
-        op = {'op': 'kern.evalv', 'name': name, 'attrs': {k_: f2u(float(t)) for k_, t in (attrs or {}).items()},
-              'vattrs': {k_: [f2u(float(t)) for t in np.asarray(a, dtype=float).ravel()] for k_, a in (vattrs or {}).items()},
-              'pts': [pt]}
+        if pykern.is_vector_kernel(specs[name], g):
+            op = {'op': 'kern.evalv', 'name': name, 'attrs': {k_: f2u(float(t)) for k_, t in (attrs or {}).items()},
+                  'vattrs': {k_: [f2u(float(t)) for t in np.asarray(a, dtype=float).ravel()] for k_, a in (vattrs or {}).items()},
+                  'pts': [pt]}
+        else:
+            op = {'op': 'kern.eval', 'name': name, 'attrs': {k_: f2u(float(t)) for k_, t in (attrs or {}).items()},
+                  'pts': [{'x': pt['x'], 'b': pt['b']}]}
         queue.append((name, op, [float(t) for t in np.asarray(want, dtype=float).ravel()], what))
 
     def flush():
@@ -1060,7 +1066,7 @@ def check_vector_kernels(ctx, apus, n_cases: int):
             return
         outs = ctx.driver.outs([q[1] for q in queue])
         for (name, op, w, what), o in zip(queue, outs):
-            have = [u2f(t) for t in o[0]]
+            have = [u2f(t) for t in o[0]] if isinstance(o[0], list) else [u2f(o[0])]
             seen.add(name)
             sm['points'] += 1
             sm['elements'] += len(w)
@@ -1086,6 +1092,15 @@ def check_vector_kernels(ctx, apus, n_cases: int):
         ctx.diverge('kernel scenario', {'group': 'get_trajectory_emissions'}, 'no `idx_slice = …` statement to observe the indices at')
     code_te = K._unwrap(tr_mod.get_trajectory_emissions).__code__
     code_ce = K._unwrap(em_mod.compute_emissions).__code__
+    import AEIC.emissions.lto as lto_mod
+    from AEIC.performance.types import ThrustMode
+
+    code_lto = K._unwrap(lto_mod.get_LTO_emissions).__code__
+    fn_lto = pykern.Module.get('emissions/lto.py').funcs['get_LTO_emissions']
+    # the line where `lto_fuel_burn` is first assigned: the unzeroed LTO indices are copied there
+    lto_line = next((st.lineno for st in fn_lto.body if isinstance(st, ast.Assign) and any(
+        isinstance(t, ast.Name) and t.id == 'lto_fuel_burn' for t in st.targets)), None)
+    tmv4 = lambda v: [float(v[m]) for m in ThrustMode]  # noqa: E731
 
     for i in range(n_cases):
         case = gen_case(ctx.rng, 9_000_000 + i, apus)
@@ -1118,7 +1133,21 @@ def check_vector_kernels(ctx, apus, n_cases: int):
                     snap['burn'] = np.array(frame.f_locals['fuel_burn_per_segment'], dtype=float, copy=True)
                 return local_ce
 
+            def local_lto(frame, event, arg):
+                if event == 'line' and frame.f_lineno == lto_line and 'lto_pre' not in snap:
+                    snap['lto_pre'] = {s: tmv4(v) for s, v in frame.f_locals['lto_indices'].items()}
+                elif event == 'return' and arg is not None and 'lto_fuel_burn' in frame.f_locals:
+                    loc = frame.f_locals
+                    snap['lto_post_idx'] = {s: tmv4(v) for s, v in loc['lto_indices'].items()}
+                    snap['lto_post_em'] = {s: tmv4(v) for s, v in loc['lto_emissions'].items()}
+                    snap['lto_fuel'] = tmv4(loc['lto_fuel_burn'])
+                    snap['lto_ff'] = tmv4(loc['lto_data'].fuel_flow)
+                    snap['lto_total'] = float(arg.fuel_burn)
+                return local_lto
+
             def tracer(frame, event, arg):
+                if event == 'call' and frame.f_code is code_lto and lto_line is not None:
+                    return local_lto
                 if event == 'call' and frame.f_code is code_te:
                     return local_te
                 if event == 'call' and frame.f_code is code_ce:
@@ -1146,6 +1175,17 @@ def check_vector_kernels(ctx, apus, n_cases: int):
                         run('traj_indices', v=v, nn=[lo, hi], want=snap['post_idx'][s_], what=f'{s_.name} window [{lo},{hi})')
                         run('traj_emissions', v=v, nn=[lo, hi], want=snap['post_em'][s_], what=f'{s_.name} window [{lo},{hi})')
                     run('traj_fuel_burn', v=[next(iter(snap['pre'].values()), snap['fb']), snap['fb']], nn=[lo, hi], want=[snap['tfb']])
+            if 'lto_pre' in snap and 'lto_fuel' in snap:
+                attrs = {f'lto_data.fuel_flow[ThrustMode.{m}]': snap['lto_ff'][j] for j, m in enumerate(MODES)}
+                tm = config.emissions.climb_descent_mode != ClimbDescentMode.LTO
+                for s_, pre in snap['lto_pre'].items():
+                    for j, m in enumerate(MODES):
+                        run(f'lto_index_{m}', x=pre, b=[tm], want=[snap['lto_post_idx'][s_][j]], what=f'{s_.name}')
+                        run(f'lto_emission_{m}', attrs=attrs, x=pre, b=[tm], want=[snap['lto_post_em'][s_][j]], what=f'{s_.name}')
+                some = next(iter(snap['lto_pre'].values()), [0.0] * 4)
+                for j, m in enumerate(MODES):
+                    run(f'lto_fuel_{m}', attrs=attrs, x=some, b=[tm], want=[snap['lto_fuel'][j]])
+                run('lto_fuel_burn', attrs=attrs, x=some, b=[tm], want=[snap['lto_total']])
             # _trajectory_slice on the trajectory itself and on varied climb / descent counts
             lto_mode = config.emissions.climb_descent_mode != ClimbDescentMode.TRAJECTORY
             n = len(tr)
